@@ -22,11 +22,12 @@ go build ./... >/dev/null 2>&1 || { echo "CONFIRM: does not build"; exit 3; }
 if go test -count=1 ./... >/tmp/t$TAG.log 2>&1; then echo "CONFIRM: existing tests pass with the change"; else echo "CONFIRM: existing tests FAIL with the change"; tail -5 /tmp/t$TAG.log; exit 3; fi
 DEMO=$(ls "$M"/*_test.go 2>/dev/null | head -1)
 DD=$(grep -m1 '^demo-dir:' "$M/notes.md" 2>/dev/null | awk '{print $2}'); DD="${DD:-cmd/calc}"
+TAGS=""; if [ -n "$DEMO" ] && grep -q "go:build verif" "$DEMO"; then TAGS="-tags verif"; fi
 if [ -n "$DEMO" ]; then
   cp "$DEMO" $DD/zz_demo_test.go
-  if timeout 300 go test -count=1 ./$DD/ >/tmp/d$TAG.log 2>&1; then echo "CONFIRM: demo PASSES with the change (useless)"; else echo "CONFIRM: demo fails with the change"; fi
+  if timeout 300 go test $TAGS -count=1 ./$DD/ >/tmp/d$TAG.log 2>&1; then echo "CONFIRM: demo PASSES with the change (useless)"; else echo "CONFIRM: demo fails with the change"; fi
   git apply -R "$M/patch.diff" 2>/dev/null || { cp $DD/zz_demo_test.go /tmp/zz$TAG.go; git checkout -- . ; cp /tmp/zz$TAG.go $DD/zz_demo_test.go; }
-  if timeout 300 go test -count=1 ./$DD/ >/tmp/d2$TAG.log 2>&1; then echo "CONFIRM: demo passes without the change"; else echo "CONFIRM: demo FAILS without the change"; tail -5 /tmp/d2$TAG.log; fi
+  if timeout 300 go test $TAGS -count=1 ./$DD/ >/tmp/d2$TAG.log 2>&1; then echo "CONFIRM: demo passes without the change"; else echo "CONFIRM: demo FAILS without the change"; tail -5 /tmp/d2$TAG.log; fi
   rm -f $DD/zz_demo_test.go
   git checkout -- .
   git apply "$M/patch.diff" 2>/dev/null || git apply -3 "$M/patch.diff"
